@@ -73,11 +73,43 @@ def run(prog, R):
     # (functions that return an error position or the error value itself - `fn report(&self, defect) -> Error`)
     errh = set(p for p in reach if ('ErrorPosition' in prog.bodies[p].local_tys[0] or prog.bodies[p].local_tys[0].strip() in ('fasta::Error', 'fastq::Error'))
                and 'Result' not in prog.bodies[p].local_tys[0])
+    def only_feeds_errors(p):
+        """every call of p hands its result to an error-construction helper / an error value and nowhere else
+        (`self.error_pos(0, self.record_id())`): p produces data of the error, on the error path"""
+        pb = prog.bodies[p]
+        if 'String' not in pb.local_tys[0] or 'Result' in pb.local_tys[0]:
+            return False
+        sites = [(prog.bodies[a_], t_) for a_ in callers.get(p, ()) if a_ in prog.bodies for _, t_ in prog.bodies[a_].calls() if prog.local_callee_body(t_.callee) is pb]
+        if not sites:
+            return False
+        for cb_, t_ in sites:
+            if not t_.dest.is_local():
+                return False
+            sinks = [x for x in forward_sinks(cb_, t_.dest.local) if x[0] in ('call', 'agg', 'ret', 'store')]
+            if not sinks:
+                return False
+            for (k_, n_, i_, via_) in sinks:
+                if k_ == 'call' and prog.local_callee_body(n_.callee) is not None and prog.local_callee_body(n_.callee).path in errh:
+                    continue
+                if k_ == 'call' and n_.callee is not None and n_.callee.path.startswith(('std::mem::drop', 'std::ptr::drop_in_place')):
+                    continue
+                # handed on inside the error value (`self.fail(Error::InvalidSep { pos: ErrorPosition { id, .. }, .. })`)
+                cbk = prog.local_callee_body(n_.callee) if k_ == 'call' and n_.callee is not None else None
+                if cbk is not None and i_ + 1 < len(cbk.local_tys) and i_ < cbk.arg_count and any(x in cbk.local_tys[i_ + 1] for x in ('::Error', 'ErrorPosition')):
+                    continue
+                if k_ == 'call' and n_.callee is not None and n_.callee.path in ('std::convert::From::from', 'std::convert::Into::into', 'std::ops::FromResidual::from_residual', 'std::ops::Try::from_output'):
+                    continue
+                if k_ == 'ret' and any(x in cb_.local_tys[0] for x in ('::Error', 'ErrorPosition')):
+                    continue
+                if k_ == 'agg' and any(x in str(n_.rv.j.get('adt', '')) for x in ('Error', 'ErrorPosition', 'Option', 'Result')):
+                    continue
+                return False
+        return True
     changed = True
     while changed:
         changed = False
         for p in reach:
-            if p not in errh and callers.get(p) and callers[p] <= errh:
+            if p not in errh and callers.get(p) and (callers[p] <= errh or only_feeds_errors(p)):
                 errh.add(p)
                 changed = True
     for p in sorted(reach):
